@@ -1,4 +1,5 @@
 import CapyV.Model.Stores
+import CapyV.Model.CopyLang
 import CapyV.Driver.TyCodec
 namespace CapyV.Driver
 open CapyV CapyV.Stores
@@ -15,10 +16,48 @@ def mergeIntervals (fp : List Store) : List (Nat × Nat) :=
 def showIntervals (l : List (Nat × Nat)) : String :=
   if l.isEmpty then "-" else ",".intercalate (l.map fun p => s!"{p.1}-{p.2}")
 
+/-- one CopyLang operation: `i x v1,v2,..` | `d form dst srcvar off len` | `s x off v` |
+`a dvar doff svar soff len` | `o x off` -/
+def parseCopyOp (ws : List String) : Option Copy.Op :=
+  match ws with
+  | ["i", x, cells] =>
+    match x.toNat?, (cells.splitOn ",").mapM String.toInt? with
+    | some x, some cs => some (.init x cs)
+    | _, _ => none
+  | ["d", f, dst, sv, off, len] =>
+    match f.toNat?, dst.toNat?, sv.toNat?, off.toNat?, len.toNat? with
+    | some f, some dst, some sv, some off, some len => some (.defn f dst ⟨sv, off, len⟩)
+    | _, _, _, _, _ => none
+  | ["s", x, off, v] =>
+    match x.toNat?, off.toNat?, v.toInt? with
+    | some x, some off, some v => some (.set x off v)
+    | _, _, _ => none
+  | ["a", dv, doff, sv, soff, len] =>
+    match dv.toNat?, doff.toNat?, sv.toNat?, soff.toNat?, len.toNat? with
+    | some dv, some doff, some sv, some soff, some len => some (.assign ⟨dv, doff, len⟩ ⟨sv, soff, len⟩)
+    | _, _, _, _, _ => none
+  | ["o", x, off] =>
+    match x.toNat?, off.toNat? with
+    | some x, some off => some (.obs x off)
+    | _, _ => none
+  | _ => none
+
+/-- `copy <op> ; <op> ; …` → the printed cells, comma separated (`stuck` if the program is not
+inside the model's domain, `bad-op` if it does not parse) -/
+def c02copy (rest : List String) : String :=
+  let groups := (" ".intercalate rest).splitOn ";" |>.map (fun g => words g) |>.filter (· ≠ [])
+  match groups.mapM parseCopyOp with
+  | none => "bad-op"
+  | some ops =>
+    match Copy.run ops with
+    | none => "stuck"
+    | some out => ",".intercalate (out.map toString)
+
 /-- `fp <pw> <fieldOffset> <same|variant|payload|nil> <dst-ty> | <payload-ty or void>` → merged
 byte intervals written, relative to the enclosing object -/
 def c02 (args : List String) : String :=
   match args with
+  | "copy" :: rest => c02copy rest
   | "fp" :: pw :: off :: kind :: rest =>
     match pw.toNat?, off.toNat?, (splitBar (" ".intercalate rest)) with
     | some pw, some off, [d, p] =>
